@@ -202,6 +202,8 @@ BAD_KEYS = {
 }
 FIXED_SLOT_NAMES = ["main", "aux", "extra", "import"]
 SECTION_NAMES = ["n1", "n2", "N3", "main", "aux", "alpha", "zz",
+                 # a backslash and U+001A are characters like any other
+                 "c:\\spool", "a\\b", "n\x1az",
                  "Straße", "ΣΊΣΥΦΟΣ", "Maſt", "ÉCOLE",
                  # names may end in (or consist of) slashes: '<t dir//>' is
                  # the empty form of a section named 'dir/'
